@@ -20,6 +20,7 @@ PERMIT, BLOCK, ABSTAIN, DEFER = "permit", "block", "abstain", "defer"
 
 RATIO_DEFAULT = {"majority": 0.5, "supermajority": 0.666, "weighted": 0.5, "confidence": 0.5, "bayesian": 0.5}
 CONFIDENCE_MIN = 0.3
+EVIDENCE_MIN = Fraction(1, 10 ** 9)      # BAYESIAN: weight x confidence below this is lost in float arithmetic, not judged
 
 
 def ballot_class(kind: str) -> str:
@@ -56,11 +57,26 @@ def required_count(custom, n: int) -> int:
         return n // 2 + 1                      # adopted reading: strict majority of the colony
     if custom == 0:
         return 1
-    if 0 < custom < 1:                         # a share of the colony, rounded up, never below one
-        return max(1, math.ceil(Fraction(str(custom)) * n))
+    if 0 < custom < 1:                         # a share of the colony, rounded up, never below one; a product within 1e-9 of
+        # a whole number of members (0.5000000000000001 x 4) may be taken as that number: judge the weaker
+        return max(1, math.ceil(Fraction(str(custom)) * n - Fraction(1, 10 ** 9)))
     if custom == 1:
         return 1                               # "one permit" and "all of them" are both defensible: judge the weaker
-    return max(1, int(custom))
+    return max(1, int(custom))                 # a fractional count (2.5) may be read as 2 or 3: judge the weaker
+
+
+def required_strict(custom, n: int) -> int:
+    """The strictest defensible reading of the same threshold (used for 'a unanimous ballot is always PERMIT':
+    that clause is only demanded when even the strictest reading is met)."""
+    if custom is None:
+        return n // 2 + 1
+    if custom == 0:
+        return n // 2 + 1                      # 0 read as "no custom threshold"
+    if 0 < custom < 1:
+        return max(1, math.ceil(Fraction(str(custom)) * n))
+    if custom == 1:
+        return n                               # "all of them"
+    return max(1, math.ceil(custom))
 
 
 class Verdict:
@@ -122,7 +138,7 @@ def evaluate(strategy: str, custom, min_voters: int, voters: list[Voter]) -> Ver
         bs = sum((x.weight * x.conf for x in cb), Fraction(0))
         exact = all(x.exact for x in cp + cb)
         tol = Fraction(0) if exact else Fraction(1, 10 ** 9)
-        if ps + bs <= 0:
+        if ps <= 0 or ps + bs <= 0:
             forbid("no-positive-permit-weight")
             v.support = Fraction(0)
         else:
@@ -139,14 +155,15 @@ def evaluate(strategy: str, custom, min_voters: int, voters: list[Voter]) -> Ver
         # numerically only "needs a permit ballot" is fixed by the statement; the rest is metamorphic.
         # A unanimous electorate with some evidence (weight x confidence > 0) beats an even prior,
         # so PERMIT is demanded only for thresholds up to the prior (0.5).
-        evidence = any(x.weight * x.conf > 0 for x in permits)
+        # (evidence far above float resolution, every permit ballot non-negative)
+        evidence = any(x.weight * x.conf >= EVIDENCE_MIN for x in permits) and all(x.weight * x.conf >= 0 for x in permits)
         v.must_permit = all_permit and evidence and theta <= 0.5
     elif strategy == "threshold":
         req = required_count(custom, n)
         v.required = req
         if p < req:
             forbid("fewer-permits-than-required")
-        v.must_permit = all_permit and req <= n
+        v.must_permit = all_permit and required_strict(custom, n) <= n
     else:
         raise ValueError(strategy)
     if v.must_permit and not v.may_permit:      # cannot happen for a consistent reading; never judge both
